@@ -19,11 +19,17 @@ def run(ctx):
     d = ctx.specdir()
     out, base = "cmapvec", "cmap.base.json"
     os.makedirs(os.path.join(d, out), exist_ok=True)
-    cfg = ("CONSTANTS\n" + pscommon.PS_CONSTS +
-           '  Tier = "%s"\n  MaxBlocks = %d\n  OutFile = "%s"\n  BaseFile = "%s"\n  BaseHeap <- FreshHeap\n'
-           "INIT Init\nNEXT Next\nINVARIANT Emit\nINVARIANT Inv\nPROPERTY TablesOnlyGrow\nCHECK_DEADLOCK FALSE\n"
-           % ("quick", 2 if q else 3, out, base))
-    ctx.tlc("MC_CMap", cfg, label="cmap", timeout=2400)
+    def cfg(tier, maxblocks):
+        return ("CONSTANTS\n" + pscommon.PS_CONSTS +
+                '  Tier = "%s"\n  MaxBlocks = %d\n  OutFile = "%s"\n  BaseFile = "%s"\n  BaseHeap <- FreshHeap\n'
+                "INIT Init\nNEXT Next\nINVARIANT Emit\nINVARIANT Inv\nPROPERTY TablesOnlyGrow\nCHECK_DEADLOCK FALSE\n"
+                % (tier, maxblocks, out, base))
+    # exhaustive: every option record x every sequence of up to two blocks (measured: quick 0.7 M states / 24 s,
+    # thorough entry counts 0.9 M / 23 s; three blocks exhaustively is > 11 M states and does not end in 40 min)
+    ctx.tlc("MC_CMap", cfg(ctx.tier, 2), label="cmap", timeout=2400)
+    if not q:
+        # longer files: random sequences of up to four blocks (one behaviour = one file)
+        ctx.tlc("MC_CMap", cfg("thorough", 4), label="cmap-sim4", timeout=2400, simulate=1500, depth=20000, workers=8)
     vec = os.path.join(d, out)
     summ = ctx.vh_json("replay-cmap", "-base", os.path.join(d, base), "-seed", ctx.seed, vec, timeout=2400)
     if set(summ["per_op"]) != {"codespacerange", "cidchar", "cidrange", "bfchar", "bfrange", "notdefchar", "notdefrange"}:
